@@ -18,11 +18,14 @@ package main
 //	  -> the contents of all slices after every op
 
 import (
+	"bufio"
 	"bytes"
 	"context"
 	"fmt"
+	"io"
 	"math/rand"
 	"os"
+	"os/exec"
 	"path/filepath"
 	"runtime"
 	"strconv"
@@ -187,6 +190,12 @@ func hubApp(c *Ctx) *eCase {
 	for k := 0; k < nkids; k++ {
 		hub = append(hub, GInstr{Op: "INCMP", A: fmt.Sprintf("kid%d", k), B: strconv.Itoa(k + 1)})
 	}
+	// a tiny catch node: the VM's own MOVE _catch line has spare capacity this code would fit into
+	if c.Rng.Intn(2) == 0 {
+		add("_catch", GInstr{Op: "HALT"}, GInstr{Op: "MOVE", A: []string{"_", "^"}[c.Rng.Intn(2)]})
+	} else {
+		add("_catch", GInstr{Op: "MOUT", A: "back", B: "0"}, GInstr{Op: "HALT"}, GInstr{Op: "INCMP", A: "_", B: "0"})
+	}
 	add("root", GInstr{Op: "CATCH", A: "hub", N: 8, M: false}, GInstr{Op: "HALT"})
 	add("hub", hub...)
 	for k := 0; k < nkids; k++ {
@@ -215,7 +224,7 @@ func genConcCase(c *Ctx) string {
 			}
 			ec.inputs = [][]byte{{}}
 			for k := 0; k < 2+c.Rng.Intn(5); k++ {
-				ec.inputs = append(ec.inputs, []byte(strconv.Itoa(1+c.Rng.Intn(5))), []byte([]string{"0", "9", "0", "7"}[c.Rng.Intn(4)]))
+				ec.inputs = append(ec.inputs, []byte(strconv.Itoa(1+c.Rng.Intn(5))), []byte([]string{"0", "9", "0", "7", "x", "x"}[c.Rng.Intn(6)]), []byte([]string{"0", "9", "1"}[c.Rng.Intn(3)]))
 			}
 			parts = append(parts, ec.String())
 		}
@@ -289,6 +298,136 @@ func init() {
 			if strings.HasPrefix(line, "slice ") {
 				return sliceExec(strings.TrimPrefix(line, "slice "))
 			}
+			// the sessions run in a long-lived child process: a fatal runtime error (concurrent map writes ...) kills
+			// the process it happens in and is an outcome of the case, not of the harness; the child is restarted
+			before := raceLogSize()
+			lines, died, stderrTail := concServe(c, line)
+			res := "child-died"
+			for _, l := range lines {
+				switch {
+				case strings.HasPrefix(l, "RESULT "):
+					res = strings.TrimPrefix(l, "RESULT ")
+				case strings.HasPrefix(l, "FAIL "):
+					f := strings.SplitN(l, " ", 3)
+					if len(f) == 3 {
+						c.Fail("C19", f[1], f[2])
+					}
+				case strings.HasPrefix(l, "COUNT "):
+					c.Count(strings.TrimPrefix(l, "COUNT "))
+				}
+			}
+			if died || res == "child-died" {
+				msg := stderrTail
+				if i := strings.Index(msg, "fatal error:"); i >= 0 {
+					msg = msg[i:]
+				}
+				msg = strings.SplitN(msg, "\n\n", 2)[0]
+				c.Fail("C19", "runtime-fatal", "the process serving the sessions concurrently died: "+trunc(strings.ReplaceAll(msg, "\n", " | "), 400))
+				res = "DIFF child process died"
+			}
+			if after := raceLogSize(); after > before {
+				c.Fail("C19", "data-race", "the race detector reported a data race while this case ran: "+raceLogTail(before))
+			}
+			return res
+		},
+		Teardown: func(c *Ctx) { concStop() },
+	}
+}
+
+type concChild struct {
+	cmd    *exec.Cmd
+	in     io.WriteCloser
+	out    *bufio.Reader
+	stderr *bytes.Buffer
+}
+
+var concProc *concChild
+
+func concStop() {
+	if concProc != nil {
+		concProc.in.Close()
+		concProc.cmd.Wait()
+		concProc = nil
+	}
+}
+
+// concServe sends one case to the child and returns its answer lines; died reports that the child exited instead.
+func concServe(c *Ctx, line string) (lines []string, died bool, stderrTail string) {
+	if concProc == nil {
+		self, _ := os.Executable()
+		cmd := exec.Command(self, "concchild", strconv.FormatInt(c.Seed, 10), c.Tier)
+		in, _ := cmd.StdinPipe()
+		outp, _ := cmd.StdoutPipe()
+		eb := &bytes.Buffer{}
+		cmd.Stderr = eb
+		if err := cmd.Start(); err != nil {
+			return nil, true, err.Error()
+		}
+		concProc = &concChild{cmd: cmd, in: in, out: bufio.NewReaderSize(outp, 1<<20), stderr: eb}
+	}
+	p := concProc
+	fmt.Fprintf(p.in, "%d\t%s\n", c.idx, line)
+	for {
+		l, err := p.out.ReadString('\n')
+		l = strings.TrimRight(l, "\n")
+		if l == "END" {
+			return lines, false, ""
+		}
+		if l != "" {
+			lines = append(lines, l)
+		}
+		if err != nil {
+			p.cmd.Wait()
+			tail := p.stderr.String()
+			if len(tail) > 4000 {
+				tail = tail[:4000]
+			}
+			concProc = nil
+			return lines, true, tail
+		}
+	}
+}
+
+// concChildMain serves conc cases from stdin ("<idx>\t<case>") and answers each with FAIL/COUNT/RESULT lines and END.
+func concChildMain(args []string) {
+	if len(args) != 2 {
+		os.Exit(2)
+	}
+	seed, _ := strconv.ParseInt(args[0], 10, 64)
+	rd := bufio.NewReaderSize(os.Stdin, 1<<20)
+	for {
+		l, err := rd.ReadString('\n')
+		l = strings.TrimRight(l, "\n")
+		if l != "" {
+			f := strings.SplitN(l, "\t", 2)
+			idx, _ := strconv.Atoi(f[0])
+			c := &Ctx{Seed: seed, idx: idx, Tier: args[1], Counts: map[string]int{}}
+			childFails = nil
+			res := "bad-op"
+			if len(f) == 2 {
+				res = concRun(c, f[1])
+			}
+			w := bytes.NewBuffer(nil)
+			for _, fl := range childFails {
+				fmt.Fprintf(w, "FAIL %s %s\n", fl[0], fl[1])
+			}
+			for k := range c.Counts {
+				fmt.Fprintf(w, "COUNT %s\n", k)
+			}
+			fmt.Fprintf(w, "RESULT %s\nEND\n", res)
+			os.Stdout.Write(w.Bytes())
+		}
+		if err != nil {
+			return
+		}
+	}
+}
+
+var childFails [][2]string
+
+func concRun(c *Ctx, line string) string {
+	{
+		{
 			parts := strings.Split(line, " ## ")
 			hdr := strings.Fields(parts[0])
 			if len(parts) < 2 || len(hdr) != 4 || hdr[0] != "conc" {
@@ -340,7 +479,6 @@ func init() {
 				}
 			}
 			restore()
-			before := raceLogSize()
 			var firstDiff string
 			rng := rand.New(rand.NewSource(c.Seed + int64(c.idx)))
 			for r := 0; r < rounds && firstDiff == ""; r++ {
@@ -381,10 +519,7 @@ func init() {
 				restore()
 			}
 			if firstDiff != "" {
-				c.Fail("C19", "transcript-differs", firstDiff)
-			}
-			if after := raceLogSize(); after > before {
-				c.Fail("C19", "data-race", "the race detector reported a data race while this case ran: "+raceLogTail(before))
+				childFails = append(childFails, [2]string{"transcript-differs", firstDiff})
 			}
 			c.Count(fmt.Sprintf("sessions:%d", len(cases)))
 			c.Count("store:" + storeKind)
@@ -397,7 +532,7 @@ func init() {
 				return "DIFF " + firstDiff
 			}
 			return strings.Join(outs, " @@ ")
-		},
+		}
 	}
 }
 
